@@ -93,6 +93,7 @@ inductive Ev
   | meh (caught : Bool) (msg : String)
   | hbs (l : List String) | out (name : String) (text : String) | slots (n : Nat)
   | refs (master simul : Int)
+  | slotIdx (l : List Nat)
   | crash (why : String)
   deriving Repr, DecidableEq
 
@@ -783,10 +784,16 @@ def exitEv (w : W) : Ev := if w.shutdown then .exitShutdown else .exitLoop
 def outEv (e : Nat × String) : Ev := .out s!"c{e.1}" e.2
 def consoleOutEv (w : W) : Ev := .out "console" (String.join (((allOuts w).filter (fun e => e.1 = 0)).map (·.2)))
 
-/-- `exit ...`, `hbs`, `refs`, `slots` -/
+/-- indices of the occupied slots of all_users[] -/
+def occupiedIdx : List (Option Conn) → Nat → List Nat
+  | [], _ => []
+  | none :: l, i => occupiedIdx l (i + 1)
+  | some _ :: l, i => i :: occupiedIdx l (i + 1)
+
+/-- `exit ...`, `hbs`, `refs`, `slots`, `slotidx` -/
 def finishHead (w : W) : W :=
-  emit (emit (emit (emit w (exitEv w)) (.hbs (sortStrings (w.hbs.map Oid.name)))) (.refs w.masterRef 0))
-    (.slots (liveOuts w).length)
+  emit (emit (emit (emit (emit w (exitEv w)) (.hbs (sortStrings (w.hbs.map Oid.name)))) (.refs w.masterRef 0))
+    (.slots (liveOuts w).length)) (.slotIdx (occupiedIdx (slots w) 0))
 
 /-- final observations printed by the harness after backend() returned -/
 def finish (w : W) : W :=
